@@ -9,7 +9,7 @@
 #include "libc.h"
 #include "ghost.h"
 #include "offsets.h"
-void c05_ins_int(u8*, u8*); void c05_ins_uint(u8*, u8*); void c05_ins_short(u8*, u8*); void c05_ins_long(u8*, u8*); void c05_ins_cstr(u8*, u8*); void c05_ins_u8(u8*, u8*);
+void c05_ins_int(u8*, u8*); void c05_ins_uint(u8*, u8*); void c05_ins_short(u8*, u8*); void c05_ins_long(u8*, u8*); void c05_ins_cstr(u8*, u8*); void c05_ins_u8(u8*, u8*); void c05_ins_bool(u8*, u8*); void c05_ins_arr(u8*, u8*);
 u8 _ZTVSo[96] __attribute__((aligned(8)));
 enum { T_STR = 1, T_WRITE, T_NUM, T_CHAR };
 typedef struct { u32 kind; u32 cut; u64 a; u32 hex; u32 sgn; u64 n; } tok_t;
@@ -42,6 +42,7 @@ static void put_num(u8* os, int is_signed, int bits, u64 v) { int o = os_of_ios(
 u8* _ZStlsISt11char_traitsIcEERSt13basic_ostreamIcT_ES5_PKc(u8* os, u8* lit) { put(os, T_STR, (u64)lit, 0, lit_len(lit)); return os; }
 u8* _ZNSo5writeEPKcl(u8* os, u8* p, u64 n) { put(os, T_WRITE, (u64)p, 0, n); return os; }
 u8* _ZStlsISt11char_traitsIcEERSt13basic_ostreamIcT_ES5_h(u8* os, u8 c) { put(os, T_CHAR, c, 0, 1); return os; }   /* an unsigned char is inserted as a character */
+u8* _ZNSo9_M_insertIbEERSoT_(u8* os, u8 v) { put(os, T_NUM, v, 0, 1); return os; }   /* bool without boolalpha: 0 or 1 */
 u8* _ZNSolsEi(u8* os, u32 v) { put_num(os, 1, 32, (u64)(long long)(int)v); return os; }
 u8* _ZNSolsEs(u8* os, u16 v) { put_num(os, 1, 16, (u64)(long long)(short)v); return os; }
 u8* _ZNSo9_M_insertIlEERSoT_(u8* os, u64 v) { put_num(os, 1, 64, v); return os; }
@@ -69,6 +70,10 @@ int main(void) {
   v64 = (u64)v; c05_ins_long(stream, (u8*)&v);
 #elif TY == 6
   u8 v; VP_SET(u8, v, "value"); v64 = v; c05_ins_u8(stream, (u8*)&v);
+#elif TY == 7
+  u8 v; VP_SET(u8, v, "value"); __CPROVER_assume(v <= 1); v64 = v; c05_ins_bool(stream, (u8*)&v);
+#elif TY == 8   /* a character array of 4 (a literal of 3 characters): the text up to its terminator */
+  for (int i = 0; i < 3; i++) { VP_SET(u8, text[i], "text"); __CPROVER_assume(text[i] != 0); } text[3] = 0; c05_ins_arr(stream, text);
 #else
   for (int i = 0; i < 3; i++) VP_SET(u8, text[i], "text"); text[3] = 0; empty = text[0] == 0; c05_ins_cstr(stream, (u8*)&textp);
 #endif
@@ -82,6 +87,8 @@ int main(void) {
 #if TY <= 4
     __CPROVER_assert(toks[2].kind == T_NUM && toks[2].a == v64 && toks[2].sgn == (TY != 2), "chunk data: the inserted value");
     __CPROVER_assert(toks[2].hex == 0, "the inserted value is written in decimal (std::hex is for the chunk-size line only)");
+#elif TY == 7
+    __CPROVER_assert(toks[2].kind == T_NUM && toks[2].a == v64 && toks[2].n == 1, "chunk data: the inserted truth value");
 #elif TY == 6
     __CPROVER_assert(toks[2].kind == T_CHAR && toks[2].a == v64, "chunk data: the inserted character");
 #else
